@@ -37,10 +37,10 @@ impl ByteCompiler<'_> {
                 //   Inc(dst, local); Move(local, dst) → 2 ops
                 //
                 // Post-increment (i++):
-                //   Move(dst, local); Inc(local, local) → 2 ops
+                //   Move(dst, local); Inc(local, dst) → 2 ops
                 //
-                // Inc(local, local) works because Inc writes new to dst AFTER old to src,
-                // so when dst==src the new value wins.
+                // Inc(local, local) (result unused) works because Inc writes new to dst AFTER
+                // old to src, so when dst==src the new value wins.
                 //
                 // Skip for const bindings — they must fall through to emit ThrowMutateImmutable.
                 if is_lexical
@@ -65,11 +65,12 @@ impl ByteCompiler<'_> {
                     if post {
                         // Save old value to dst (post-increment returns old value).
                         compiler.bytecode.emit_move(dst.variable(), local_op);
-                        // Increment in-place.
+                        // `Inc`/`Dec` leave `ToNumeric(old)` in their source register, which is
+                        // the result of a postfix update, and write the new value to the local.
                         if increment {
-                            compiler.bytecode.emit_inc(local_op, local_op);
+                            compiler.bytecode.emit_inc(local_op, dst.variable());
                         } else {
-                            compiler.bytecode.emit_dec(local_op, local_op);
+                            compiler.bytecode.emit_dec(local_op, dst.variable());
                         }
                     } else {
                         if increment {
